@@ -100,6 +100,37 @@ pub struct Adversary {
     pub accepted: Arc<std::sync::Mutex<Vec<quinn::Connection>>>,
     pub present_cert: bool,
     pub held_uni: Vec<quinn::SendStream>,
+    /// identity of the adversary's own key (None for a non-Ed25519 key)
+    pub peer_id: Option<anemo::PeerId>,
+    /// scripted answers to the request streams honest nodes open towards the adversary: (bytes, finish|reset|hold)
+    pub responses: Responses,
+}
+
+pub type Responses = Arc<std::sync::Mutex<std::collections::VecDeque<(Vec<u8>, String)>>>;
+
+/// Serves the request streams of one connection with the scripted answers (nothing scripted: the stream is just finished).
+fn serve(conn: quinn::Connection, responses: Responses) {
+    tokio::spawn(async move {
+        let held: Arc<std::sync::Mutex<Vec<(quinn::SendStream, quinn::RecvStream)>>> = Default::default();
+        while let Ok((mut tx, mut rx)) = conn.accept_bi().await {
+            let item = responses.lock().unwrap().pop_front();
+            let held = held.clone();
+            tokio::spawn(async move {
+                let _ = tokio::time::timeout(std::time::Duration::from_secs(5), rx.read_to_end(1 << 23)).await;
+                match item {
+                    Some((bytes, act)) => {
+                        let _ = tx.write_all(&bytes).await;
+                        match act.as_str() {
+                            "reset" => { let _ = tx.reset(11u32.into()); }
+                            "hold" => held.lock().unwrap().push((tx, rx)),
+                            _ => { let _ = tx.finish(); let _ = tx.stopped().await; }
+                        }
+                    }
+                    None => { let _ = tx.finish(); }
+                }
+            });
+        }
+    });
 }
 
 fn signing_key(spec: &str) -> Arc<dyn rustls::sign::SigningKey> {
@@ -172,14 +203,22 @@ impl Adversary {
         endpoint.set_default_client_config(quinn::ClientConfig::new(Arc::new(
             quinn::crypto::rustls::QuicClientConfig::try_from(client_crypto).unwrap(),
         )));
+        let responses: Responses = Default::default();
+        let peer_id = if k == "e" { None } else {
+            let raw = rcgen::PublicKeyData::der_bytes(&certs::ed_keypair(k.parse().unwrap())).to_vec();
+            <[u8; 32]>::try_from(raw.as_slice()).ok().map(anemo::PeerId)
+        };
         // accept loop: complete the TLS handshake and play the server half of anemo's handshake
         let accepted = Arc::new(std::sync::Mutex::new(Vec::new()));
         let (ep, acc) = (endpoint.clone(), accepted.clone());
+        let resp2 = responses.clone();
         tokio::spawn(async move {
             while let Some(incoming) = ep.accept().await {
                 let acc = acc.clone();
+                let resp3 = resp2.clone();
                 tokio::spawn(async move {
                     if let Ok(conn) = incoming.await {
+                        serve(conn.clone(), resp3);
                         if let Ok(mut s) = conn.open_uni().await {
                             let _ = anemo::verif::write_version_frame(&mut s, anemo::types::Version::V1).await;
                             let _ = s.finish();
@@ -190,7 +229,7 @@ impl Adversary {
                 });
             }
         });
-        Adversary { held_uni: Vec::new(), held: Vec::new(), endpoint, port, conns: HashMap::new(), accepted, present_cert }
+        Adversary { peer_id, responses, held_uni: Vec::new(), held: Vec::new(), endpoint, port, conns: HashMap::new(), accepted, present_cert }
     }
 
     /// Hostile behaviour on an established connection to `target` (C06). `op`:
@@ -270,6 +309,7 @@ impl Adversary {
         .await;
         match r {
             Ok(Ok(_)) => {
+                serve(conn.clone(), self.responses.clone());
                 self.conns.insert(target, conn);
                 "ok".into()
             }
